@@ -270,7 +270,7 @@ def dyadic_v(rng, n, scale_bits=0):
 def run(ctx):
     thorough = ctx.tier == "thorough"
     rng = ctx.rng
-    ctx.proofs()
+    ctx.proofs(["C09/Props.v", "C09/PropsTie.v"])
     warnings.filterwarnings("ignore")
     from quantecon.markov import DiscreteDP, backward_induction
 
